@@ -58,7 +58,7 @@ theorem C13_prefix (respond : Respond σ) (fuel : Nat) (sink : Sink σ) (m : Mux
     the reply is an error exactly when some `write_all` failed, and on success the sink holds the
     complete fault-free file and the reported byte count is its length. -/
 theorem C13_err_iff (respond : Respond σ) (fuel : Nat) (sink : Sink σ) (m : Muxer)
-    (hf : m.finished = false) (hfin : m.w.finalized = false)
+    (hf : m.finished = false)
     (hres : (m.w.finalize m.width m.height m.md m.fast).2.res = .ok) :
     let r := writeChunks respond fuel sink (m.w.finalize m.width m.height m.md m.fast).2.chunks 0
     let reply := (m.finishStats (fun _ => (r.2.1, r.2.2))).2.2
